@@ -241,7 +241,7 @@ func (a *absState) compute(v ssa.Value, d int) bool {
 	case *ssa.Parameter:
 		args := c.argValues(x.Parent(), paramIndex(x))
 		if len(args) == 0 {
-			return false
+			return c.deadFunction(x.Parent())
 		}
 		for _, arg := range args {
 			if !a.isAbs(arg, d+1) {
@@ -761,7 +761,31 @@ func ruleDT5(c *Ctx) {
 	if len(keys) < 8 {
 		c.bad(fn, "a:observable-fields", c.FnPos(ce), fmt.Sprintf("only %d observable fields found: observers not recognised", len(keys)))
 	}
-	// (b) literals complete
+	// (b) literals complete. A payload field that no literal anywhere in the module assigns is a read-only field (the
+	// legacy spelling of a key that is still decoded from old logs but no longer written): compaction writes the current
+	// spelling, and DT16 checks that every replay case of that payload reads the legacy field where its sibling does
+	everSet := map[string]bool{}
+	for _, g := range c.Fns {
+		if !c.InModule(g) || g.Blocks == nil {
+			continue
+		}
+		eachInstr(g, func(r instrRef) {
+			al, ok := r.In.(*ssa.Alloc)
+			if !ok || al.Comment != "complit" {
+				return
+			}
+			tn := namedTypeName(al.Type())
+			for _, u := range *al.Referrers() {
+				if fa, ok := u.(*ssa.FieldAddr); ok {
+					for _, uu := range *fa.Referrers() {
+						if _, ok := uu.(*ssa.Store); ok {
+							everSet[tn+"."+fieldName(al.Type(), fa.Field)] = true
+						}
+					}
+				}
+			}
+		})
+	}
 	checkLits := func(f *ssa.Function, onlyType string) {
 		cnt := map[string]int{}
 		eachInstr(f, func(r instrRef) {
@@ -792,7 +816,7 @@ func ruleDT5(c *Ctx) {
 			}
 			var missing []string
 			for i := 0; i < st.NumFields(); i++ {
-				if !set[st.Field(i).Name()] {
+				if !set[st.Field(i).Name()] && everSet[tn+"."+st.Field(i).Name()] {
 					missing = append(missing, st.Field(i).Name())
 				}
 			}
@@ -1305,6 +1329,11 @@ func (c *Ctx) replayFactLabel(bf branchFact) string {
 		if _, n, ok := fieldLoad(resolve(v)); ok {
 			return n
 		}
+		// the result of a payload accessor (data.endpoints() choosing between the current and the legacy spelling of a
+		// key): named by the fields it can hand back, alternatives separated by |
+		if names := accessorFieldNames(v); len(names) > 0 {
+			return strings.Join(names, "|")
+		}
 		return "?"
 	}
 	// membership of a payload/task field in a constant set of states is a comparison of that field with constants
@@ -1388,7 +1417,8 @@ func ruleDT7(c *Ctx) {
 		return
 	}
 	fn := c.Name(re)
-	allowed := func(l string) bool {
+	var allowed func(l string) bool
+	allowed = func(l string) bool {
 		switch {
 		case l == "range", strings.HasPrefix(l, "cmp:"), strings.HasPrefix(l, "err:"):
 			return true
@@ -1400,6 +1430,23 @@ func ruleDT7(c *Ctx) {
 			return true
 		case l == "nil:Meta[ID]", l == "nil:Deps[FromID]", strings.HasPrefix(l, "E==nil"):
 			return true
+		}
+		return false
+	}
+	allowed0 := allowed
+	allowed = func(l string) bool {
+		if allowed0(l) {
+			return true
+		}
+		i := strings.Index(l, "[")
+		j := strings.Index(l, "]")
+		if i < 0 || j < i || !strings.Contains(l[i:j], "|") {
+			return false
+		}
+		for _, alt := range strings.Split(l[i+1:j], "|") {
+			if allowed0(l[:i+1] + alt + l[j:]) {
+				return true
+			}
 		}
 		return false
 	}
@@ -1652,4 +1699,61 @@ func (c *Ctx) chooserLoopForm(ch *ssa.Function) (order []string, def string, ok 
 		return nil, "", false
 	}
 	return order, def, true
+}
+
+// accessorFieldNames: v is (a result of) a call of a module function whose handed-back values are all loads of struct
+// fields (an accessor choosing among fields of its receiver): the field names, sorted.
+func accessorFieldNames(v ssa.Value) []string {
+	cl, idx := callOf(v)
+	if cl == nil || curProg == nil {
+		return nil
+	}
+	h := calleeOf(&cl.Call)
+	if h == nil || h.Blocks == nil || !curProg.InModule(h) {
+		return nil
+	}
+	if idx < 0 {
+		idx = 0
+	}
+	set := map[string]bool{}
+	ok := true
+	var leaf func(x ssa.Value, d int)
+	leaf = func(x ssa.Value, d int) {
+		if d > 6 || !ok {
+			return
+		}
+		x = strip(x)
+		if ph, isPhi := x.(*ssa.Phi); isPhi {
+			for _, e := range ph.Edges {
+				if strip(e) != x {
+					leaf(e, d+1)
+				}
+			}
+			return
+		}
+		if _, n, isF := fieldLoad(resolve(x)); isF {
+			set[n] = true
+			return
+		}
+		if f, isField := x.(*ssa.Field); isField {
+			set[fieldName(f.X.Type(), f.Field)] = true
+			return
+		}
+		ok = false
+	}
+	for _, r := range returnsOf(h) {
+		if idx >= len(r.Results) {
+			return nil
+		}
+		leaf(returnedValue(r, idx), 0)
+	}
+	if !ok || len(set) == 0 {
+		return nil
+	}
+	var out []string
+	for n := range set {
+		out = append(out, n)
+	}
+	sort.Strings(out)
+	return out
 }
